@@ -156,7 +156,7 @@ PROPS["C12"] = {
                   "api/compress.rs, compress_cmd.rs. Assumed: futures `buffered` ordering, tokio blocking-pool file semantics.",
 }
 PROPS["C14"] = {
-    "theorems": ["C14_refusal_leaves_output_clone", "C14_refusal_leaves_output_compress"],
+    "theorems": ["C14_refusal_leaves_output_clone", "C14_refusal_leaves_output_compress", "C14_pin_mismatch_refused", "C14_pin_checked_before_output"],
     "suites": ["clirefuse", "tryinit"], "needs_cli": True,
     "rule": "which archives are refused at open is the reader model's decision (tryinit suite: hostile-but-checksummed, flipped, truncated headers, model vs Archive::try_init); the full matrix {clone, compress} x output {absent, regular file, block device too small / large enough (hook)} x "
             "{--force-create, --seed-output, neither} x archive {valid, invalid, pinned checksum mismatch, prefix pin, empty pin, "
@@ -204,7 +204,8 @@ PROPS["C15"] = {
     "level_note": _ARCH_NOTE,
 }
 PROPS["C04"] = {
-    "theorems": ["C04_header_accept_implies", "C04_header_only", "C04_pinned_header_identity", "C04_payload_tamper_safe"],
+    "theorems": ["C04_header_accept_implies", "C04_header_only", "C04_pinned_header_identity", "C04_payload_tamper_safe",
+                 "C04_pin_proceeds_only_if_equal", "C04_pin_checked_before_output"],
     "suites": ["tryinit", "corrupt", "clirefuse", "clicorrupt"], "needs_cli": True,
     "rule": "cases: every single-bit flip and every truncation length of a small archive (exhaustive), sampled flips/truncations, "
             "payload swaps, overwrites, deletions, trailing garbage on larger ones, with and without seeds; scripted servers "
@@ -283,18 +284,18 @@ NOT_APPLICABLE = [{"property_id": f"C{i:02d}", "reason": _PENDING} for i in rang
 
 
 # which sections of tools/translate.py each property's model/theorems depend on
-ALL_SECTIONS = ["rolling", "chunker", "header", "proto", "levels", "versions", "cloneflags", "clonesteps", "compresssteps", "pipeline"]
+ALL_SECTIONS = ["rolling", "chunker", "header", "proto", "levels", "versions", "cloneflags", "clonesteps", "compresssteps", "pincheck", "pipeline"]
 _CHUNK = ["rolling", "chunker"]
 _ARCH = ["header", "proto", "levels"]
 SECTIONS_OF = {
     "C01": _CHUNK + _ARCH + ["versions", "pipeline", "compresssteps"],
     "C02": ["clonesteps"], "C03": ["clonesteps"], "C13": [],
     "C05": ["clonesteps"], "C06": ["clonesteps"],
-    "C04": _ARCH, "C07": [], "C08": [],
+    "C04": _ARCH + ["pincheck"], "C07": [], "C08": [],
     "C09": _CHUNK, "C10": _CHUNK,
     "C11": _CHUNK + _ARCH + ["versions", "compresssteps"],
     "C12": _CHUNK + _ARCH + ["versions", "pipeline", "compresssteps"],
-    "C14": ["cloneflags", "clonesteps", "compresssteps"],
+    "C14": ["cloneflags", "clonesteps", "compresssteps", "pincheck"],
     "C16": ["cloneflags", "clonesteps", "compresssteps"],
     "C15": _CHUNK + _ARCH, "C17": _ARCH,
 }
